@@ -116,3 +116,19 @@ Proof.
   revert i. induction l as [|y r IH]; intros i H; destruct i; cbn in *; auto.
   destruct H; [left; assumption | right; eapply IH; eassumption].
 Qed.
+
+(* the repaired overflow test: next_offset > SIZE or next_offset < offset *)
+Lemma w64_sub_two64 x : two64 <= x < 2 * two64 -> w64 x = x - two64.
+Proof. intros H. unfold w64, two64 in *. lia. Qed.
+
+Lemma overflow_test_false off n S :
+  0 <= off < two64 -> 0 <= n < two64 ->
+  (w64 (off + n) >? S) || (w64 (off + n) <? off) = false ->
+  w64 (off + n) = off + n /\ off + n <= S.
+Proof.
+  intros Ho Hn H. apply orb_false_elim in H. destruct H as [H1 H2].
+  rewrite Z.gtb_ltb in H1. apply Z.ltb_ge in H1. apply Z.ltb_ge in H2.
+  destruct (Z_lt_ge_dec (off + n) two64) as [Hs | Hb].
+  - rewrite w64_small in * by lia. lia.
+  - rewrite w64_sub_two64 in * by lia. lia.
+Qed.
